@@ -246,6 +246,27 @@ func (nt *nativeTwin) run(ins []nativeIn) ([]nativeOut, error) {
 	return outs, nil
 }
 
+// runSingles runs every input in its own process.
+func (nt *nativeTwin) runSingles(ins []nativeIn) ([]nativeOut, error) {
+	if nt.err != nil {
+		return nil, nt.err
+	}
+	var outs []nativeOut
+	for _, x := range ins {
+		f := filepath.Join(nt.dir, fmt.Sprintf("in1-%d.jsonl", time.Now().UnixNano()))
+		b, _ := json.Marshal(x)
+		os.WriteFile(f, append(b, '\n'), 0644)
+		o, err := nt.runFile(f, 1)
+		os.Remove(f)
+		if err != nil {
+			outs = append(outs, nativeOut{Outcome: "crash:" + err.Error()})
+		} else {
+			outs = append(outs, o[0])
+		}
+	}
+	return outs, nil
+}
+
 func (nt *nativeTwin) runFile(f string, n int) ([]nativeOut, error) {
 	cmd := exec.Command(nt.bin, f)
 	var stderr strings.Builder
@@ -366,11 +387,15 @@ func checkMain(args []string) int {
 			perm[i], perm[j] = perm[j], perm[i]
 		}
 	}
+	nSamples := 1
+	if spec.ValidateAll {
+		nSamples = 1 << 20
+	}
 	mkTask := func(ob int, prefix []int) *interp.Task {
 		o := obligs[ob]
 		nextID++
 		return &interp.Task{ID: nextID, Oblig: ob, Harness: o.Harness, Args: o.Args, Prefix: prefix,
-			MaxPaths: 400, BudgetMs: 4000, PanicViol: o.PanicViol, NSamples: 1, PoolMode: o.PoolMode, Props: spec.Props}
+			MaxPaths: 400, BudgetMs: 4000, PanicViol: o.PanicViol, NSamples: nSamples, PoolMode: o.PoolMode, Props: spec.Props}
 	}
 	for _, ob := range perm {
 		queue = append(queue, qtask{mkTask(ob, nil), ob})
@@ -557,10 +582,17 @@ func checkMain(args []string) int {
 		for _, vr := range g.recs {
 			ins = append(ins, nativeIn{vr.ob.Harness, vr.ob.Args, vr.v.Vector, spec.Props})
 		}
-		outs, err := nt.run(ins)
 		confirmed := -1
 		nativeOutcome := ""
-		if err == nil {
+		// up to 4 native attempts: Go's map iteration order and the real
+		// sync.Pool are not deterministic
+		for attempt := 0; attempt < 4 && confirmed < 0; attempt++ {
+			// one process per vector: no state carried over between replays
+			outs, err := nt.runSingles(ins)
+			if err != nil {
+				nativeOutcome = "native-unavailable: " + err.Error()
+				break
+			}
 			for i, o := range outs {
 				if reproduces(g.recs[i].v.Msg, o.Outcome) {
 					confirmed = i
@@ -569,8 +601,6 @@ func checkMain(args []string) int {
 				}
 				nativeOutcome = o.Outcome
 			}
-		} else {
-			nativeOutcome = "native-unavailable: " + err.Error()
 		}
 		vr := g.recs[0]
 		if confirmed >= 0 {
